@@ -80,7 +80,9 @@ func (p TemplateFileParser) Parse(pi *parse.Input) (tf TemplateFile, ok bool, er
 	}
 
 	// Read until the package.
+	vfh := verifEnter()
 	for {
+		verifIter(pi, "templateFile.header", vfh)
 		// Package.
 		// package name
 		from := pi.Position()
@@ -108,8 +110,10 @@ func (p TemplateFileParser) Parse(pi *parse.Input) (tf TemplateFile, ok bool, er
 	// Strip any whitespace between the template declaration and the first template.
 	_, _, _ = parse.OptionalWhitespace.Parse(pi)
 
+	vfo := verifEnter()
 outer:
 	for {
+		verifIter(pi, "templateFile.nodes", vfo)
 		// Optional templates, CSS, and script templates.
 		// templ Name(p Parameter)
 		var tn HTMLTemplate
@@ -150,8 +154,10 @@ outer:
 		// Anything that isn't template content is Go code.
 		code := new(strings.Builder)
 		from := pi.Position()
+		vfi := verifEnter()
 	inner:
 		for {
+			verifIter(pi, "templateFile.goLines", vfi)
 			// Check to see if this line isn't Go code.
 			last := pi.Index()
 			var l string
